@@ -257,6 +257,14 @@ def mk_Reference(ctx):
     return r[0]
 
 
+def mk_Reference_gas(ctx):
+    """a gas-phase reference: the constructor attaches a pressure adjustment, so misc_models is a list of nested objects"""
+    from pmutt.empirical.references import Reference
+    from pmutt.statmech import StatMech, elec
+    return Reference(name='H2', elements={'H': 2}, phase='G', T_ref=298.15, HoRT_ref=_num(ctx, 'Hexp0', -50, 50), notes='ref',
+                     model=StatMech(name='H2', elec_model=elec.GroundStateElec(potentialenergy=_num(ctx, 'E0', -100, 100)), elements={'H': 2}))
+
+
 def mk_References(ctx):
     Reference, References, r = _refs(ctx)
     return References(offset={'H': _num(ctx, 'offH', -10, 10), 'O': _num(ctx, 'offO', -10, 10)}, references=r)
@@ -369,6 +377,7 @@ CASES = {
     'SurfaceReaction+BEP': (mk_SurfaceReaction_BEP, ['get_delta_HoRT', ('get_delta_HoRT', dict(act=True)), ('get_delta_GoRT', dict(act=True)),
                                                     ('get_GoRT_act', dict(rev=True))], ['id', 'direction', 'beta']),
     'Reference': (mk_Reference, [], ['name', 'elements', 'T_ref', 'HoRT_ref']),
+    'Reference/gas-phase': (mk_Reference_gas, [], ['name', 'elements', 'phase', 'notes', 'T_ref', 'HoRT_ref']),
     'References': (mk_References, [('get_HoRT', dict(descriptors={'H': 2, 'O': 1})), ('get_GoRT', dict(descriptors={'H': 4}))], ['descriptor', 'T_ref']),
     'LSR': (mk_LSR, ['get_UoRT', 'get_HoRT', 'get_FoRT', 'get_GoRT', 'get_q', 'get_SoR'], ['notes']),
     'Reaction': (mk_Reaction, RXN_G, ['notes']),
